@@ -21,7 +21,9 @@ def run(tier, seed):
              ([(8, 8, 1)], {'require': 'hd-under-orth', 'schemes': ('asc',), 'final': False}),
              # charts restructured with move_state (every nested composite state first lives under the root)
              ([(4, 5, 1)], {'require': 'history', 'schemes': ('asc',), 'decls': ('moved',)}),
-             ([(6, 7, 1)], {'require': 'deep-history', 'schemes': ('desc',), 'decls': ('moved',)})]
+             ([(6, 7, 1)], {'require': 'deep-history', 'schemes': ('desc',), 'decls': ('moved',)}),
+             # a listener reads configuration / time / final on every meta-event (in the middle of the steps)
+             ([(3, 5, 1)], {'schemes': ('asc',), 'decls': ('observed',)})]
     return schemes.run('C06', tier, seed, PLAN[tier], ['history'], {'history'}, RULE, ASSUME,
                        require='history', extra_plans=extra)
 
